@@ -441,7 +441,7 @@ fn gen_poly(n: usize, rng: &mut dyn RngCore) -> Polynomial<i16> {
     const NUM_COEFFICIENTS: usize = 4096;
     Polynomial {
         coefficients: (0..NUM_COEFFICIENTS)
-            .map(|_| sampler_z(mu, sigma_star, sigma_star - 0.001, rng))
+            .map(|_| sampler_z(mu, sigma_star, sigma_star - 0.001, rng) as i16)
             .collect_vec()
             .chunks(NUM_COEFFICIENTS / n)
             .map(|ch| ch.iter().sum())
